@@ -707,6 +707,21 @@ func (a *Authenticator) handleSessionResumption(ctx context.Context, sessionID s
 			ok = false
 		}
 	}
+	if ok {
+		// Judge the session against this server's own REQUIRED levels before
+		// answering, so that a requester that asked for a reply is told
+		// SID_NOT_FOUND rather than sent AUTHORIZED and then dropped.
+		probe := &SecurityNegotiation{}
+		if entry.Policy() != nil {
+			if authed, found := entry.Policy().EvaluateAttrBool("Authenticated"); found {
+				probe.Authentication = authed
+			}
+		}
+		if err := a.resumedSessionMeetsPolicy(probe, entry); err != nil {
+			slog.Info(fmt.Sprintf("🔐 SERVER: Session %s cannot be resumed: %v", redactSessionID(sessionID), err), "destination", "cedar")
+			ok = false
+		}
+	}
 	if !ok {
 		slog.Info(fmt.Sprintf("🔐 SERVER: Session %s not found or expired", redactSessionID(sessionID)), "destination", "cedar")
 
